@@ -1,5 +1,6 @@
 import PonyVerif.Drive.Util
 import PonyVerif.Model.Inherit
+import PonyVerif.Model.JoinDiscr
 /-
   Line-protocol entry for the C27 model (trusted glue).  A hierarchy is sent as `bases` (list of lists of class numbers, definition
   order) and `discr` (one integer code per class; equal discriminator values get equal codes).
@@ -33,8 +34,31 @@ def condJson : Cond → Json
   | .false_ => .str "FALSE"
   | .discrIn vals => jInts vals
 
+def boolList (j : Json) : Except String (List Bool) :=
+  match j with
+  | .arr a => a.toList.mapM (fun x => match x with | .bool b => pure b | _ => throw "boolean expected")
+  | _ => throw "list of booleans expected"
+
+open PonyVerif.Model.JoinDiscr in
+def handleJoins (j : Json) : Except String Json := do
+  let kind ← argStr j "kind"
+  let hasDiscr ← argBool j "hasDiscr"
+  let calls ← boolList (← j.getObjVal? "calls")
+  let tj (s : TState) := Json.mkObj [("joined", .bool s.joined), ("fromItems", .num (JsonNumber.fromNat s.fromItems)), ("filters", .num (JsonNumber.fromNat s.filters))]
+  let jj (s : JState) := Json.mkObj [("joined", .bool s.joined), ("optimized", .bool s.optimized), ("entityJoins", .num (JsonNumber.fromNat s.entityJoins)),
+                                      ("filters", .num (JsonNumber.fromNat s.filters)), ("m2mJoins", .num (JsonNumber.fromNat s.m2mJoins))]
+  match kind with
+  | "tableref" => pure (tj (tableRefRun hasDiscr calls))
+  | "star" => pure (tj (starTableRefRun hasDiscr calls))
+  | "fkLeft" => pure (jj (joinedRun .fkLeft hasDiscr calls))
+  | "o2oRight" => pure (jj (joinedRun .o2oRight hasDiscr calls))
+  | "o2m" => pure (jj (joinedRun .o2m hasDiscr calls))
+  | "m2m" => pure (jj (joinedRun .m2m hasDiscr calls))
+  | _ => throw s!"unknown table reference kind {kind}"
+
 def handle (j : Json) : Except String Json := do
   let op ← argStr j "op"
+  if op == "joins" then return (← handleJoins j)
   let h ← getHier j
   let cls := List.range h.n
   match op with
